@@ -167,6 +167,8 @@ func (turnComp) Gen(r *rand.Rand, tier string, n int) []*wire.Case {
 	mk("d-ties", spd(1, 100), spd(2, 100), spd(3, 100), add(1, 2), add(3), o("start"), o("reset"), g("setgauge", 3, 10000), o("start"), o("reset"), g("modav", 2, 0), g("modav", 2, 5.5), o("start"))
 	mk("d-unknown", cat(three, g("setgauge", 9, 5), g("modnorm", 9, 0.1), g("modav", 9, 1), g("remove", 9, 0))...)
 	mk("d-empty", o("start"), o("reset"), add(), o("start"))
+	// the order runs empty in the middle of a battle and is filled again: the clock goes on from where it was
+	mk("d-refill-after-empty", cat(three, o("start"), o("reset"), o("start"), o("reset"), g("remove", 1, 0), g("remove", 2, 0), g("remove", 3, 0), o("start"), spd(4, 111), spd(5, 100), add(4), o("start"), o("reset"), add(5), o("start"), o("reset"))...)
 	mk("d-double-start", cat(three, o("start"), o("start"), o("reset"), o("reset"))...)
 	mk("d-speed-change", cat(three, o("start"), o("reset"), spd(3, 400), o("start"), spd(3, 10), o("reset"), o("start"))...)
 	randOp := func() *wire.Rec {
@@ -222,6 +224,18 @@ func (turnComp) Gen(r *rand.Rand, tier string, n int) []*wire.Case {
 				delete(present, op.Int("id"))
 			}
 			ops = append(ops, op)
+			if j == l/2 && i%7 == 0 {
+				// everybody leaves, somebody new arrives
+				for _, id := range []int{1, 2, 3, 4, 5} {
+					if present[id] {
+						ops = append(ops, g("remove", id, 0))
+						delete(present, id)
+					}
+				}
+				nid := pick(r, 4, 5)
+				ops = append(ops, o("start"), add(nid), o("start"), o("reset"))
+				present[nid] = true
+			}
 		}
 		mk(fmt.Sprintf("r%d", i), ops...)
 	}
